@@ -227,6 +227,14 @@ type Target struct {
 	Asserts map[string][2]string
 	ErrNil  string
 	KeyVal  string
+	// Extensions of mapext.go: maps as state variables (Go source text of a map-typed expression
+	// -> Gallina variable of type gmap, Base/GoMap.v) and a format for every returned value
+	// ("%s" = the translated result expression), e.g. "(peersByHostPort, %s)".
+	Maps   map[string]string
+	RetFmt string
+	// VoidRet: for a function without results: the Gallina term a naked `return` (and falling off
+	// the end of the body) yields, e.g. the final value of a state variable.
+	VoidRet string
 }
 
 type fnctx struct {
@@ -246,6 +254,9 @@ func newFnctx(t *translator, tg *Target, fd *ast.FuncDecl) *fnctx {
 
 func (c *fnctx) hint(e ast.Node) (string, bool) {
 	s, ok := c.tg.Hints[c.t.src(e)]
+	if !ok {
+		s, ok = c.hintMap(e) // mapext.go
+	}
 	return s, ok
 }
 
@@ -436,6 +447,9 @@ func (c *fnctx) expr(e ast.Expr) string {
 }
 
 func (c *fnctx) ret(s string) string {
+	if c.tg.RetFmt != "" {
+		s = fmt.Sprintf(c.tg.RetFmt, s)
+	}
 	if c.tg.Panics {
 		return "(Some " + s + ")"
 	}
@@ -492,6 +506,9 @@ func (c *fnctx) stmts(list []ast.Stmt, rest string) string {
 		}
 		return pre + " " + tail()
 	}
+	if out, ok := c.stmtMap(list, rest); ok { // mapext.go
+		return out
+	}
 	if out, ok := c.stmtExt(list, rest); ok {
 		return out
 	}
@@ -501,6 +518,9 @@ func (c *fnctx) stmts(list []ast.Stmt, rest string) string {
 	switch x := s.(type) {
 	case *ast.ReturnStmt:
 		if len(x.Results) == 0 {
+			if c.tg.VoidRet != "" {
+				return c.tg.VoidRet
+			}
 			failf("%s: naked return", c.t.pos(s))
 		}
 		idx := 0
@@ -863,7 +883,7 @@ func (t *translator) emitFunc(tg *Target, w *bytes.Buffer) {
 			body = tg.Pre + "\n  " + body
 		}
 	} else {
-		body = c.stmts(fd.Body.List, "")
+		body = c.stmts(fd.Body.List, tg.VoidRet)
 	}
 	p := t.fset.Position(fd.Pos())
 	e := t.fset.Position(fd.End())
@@ -896,6 +916,15 @@ func (t *translator) emitFunc(tg *Target, w *bytes.Buffer) {
 	}
 	if tg.ErrNil != "" {
 		fmt.Fprintf(w, "   nil test of interface values: %s\n", tg.ErrNil)
+	}
+	for _, k := range sortedKeys(tg.Maps) {
+		fmt.Fprintf(w, "   map (state variable): %s  =>  %s\n", k, tg.Maps[k])
+	}
+	if tg.VoidRet != "" {
+		fmt.Fprintf(w, "   a return without value / the end of the body yields  %s\n", tg.VoidRet)
+	}
+	if tg.RetFmt != "" {
+		fmt.Fprintf(w, "   every returned value v is  %s\n", strings.ReplaceAll(tg.RetFmt, "%s", "v"))
 	}
 	keys := []string{}
 	for k := range tg.Hints {
@@ -1269,6 +1298,13 @@ func main() {
 	nfs, nfp := frameSitesSafe(&w, *repo, root)
 	writeIfChanged(filepath.Join(*out, "GenFrameSites.v"), w.Bytes())
 	fmt.Printf("go2v: GenFrameSites.v %d NewFrame sites, %d FramePool implementations\n", nfs, nfp)
+
+	// GenLockSkel.v (C16): lock / return skeletons of the get-or-create functions (mapext.go)
+	w.Reset()
+	fmt.Fprintf(&w, header, *repo)
+	nsk := root.lockSkeletons(&w)
+	writeIfChanged(filepath.Join(*out, "GenLockSkel.v"), w.Bytes())
+	fmt.Printf("go2v: GenLockSkel.v %d lock skeletons\n", nsk)
 
 	// GenTypedBuf.v, GenMessages.v ...: byte-buffer methods and message codecs (methods.go)
 	emitMethodFiles(all, *repo, *out)
